@@ -11,6 +11,7 @@ mod codec;
 mod compile;
 mod compile_ext;
 mod dynval;
+mod options;
 mod files;
 mod proj_c03;
 mod proj_c04;
@@ -67,6 +68,9 @@ fn run_case(engine: &str, f: &[&str]) -> CaseResult {
         ("codec", ["reply", _fam, hx, exp]) => codec::run_reply(hx, exp),
         ("files", ["tree", _fam, tree, argv, exp]) => files::run_tree(tree, argv, exp),
         ("compile", ["compile", _fam, proj, opts, files, exp]) => compile::run_compile(proj, opts, files, exp),
+        ("options", ["spec", _fam, hx, exp]) => options::run_spec(hx, exp),
+        ("options", ["specd", _fam, hx, exp]) => options::run_spec_detached(hx, exp),
+        ("options", ["multi", _fam, hxs, exp]) => options::run_multi(hxs, exp),
         _ => CaseResult { actual: "?".into(), diff: Some("unknown case shape".into()), oracle: None, nontrivial: false },
     }
 }
